@@ -52,6 +52,15 @@ class Ctx:
             self.cov['theorems'][t] = c
         self.cov['discharged'] = len(chunks)
         axioms = sorted(set(l.strip() for c in chunks if c.startswith('Axioms:') for l in c.splitlines()[1:] if ':' in l and not l.startswith(' ' * 6)))
+        if self.tier == 'thorough':
+            # independent re-check of the compiled property file and everything it depends on
+            pc = subprocess.run(['timeout', '1800', 'coqchk', '-silent', '-o', '-R', common.COQ, 'EAO', 'EAO.Props.%s' % self.prop],
+                                stdout=subprocess.PIPE, stderr=subprocess.STDOUT, text=True)
+            summ = pc.stdout[pc.stdout.find('CONTEXT SUMMARY'):] if 'CONTEXT SUMMARY' in pc.stdout else pc.stdout[-1500:]
+            self.cov['coqchk'] = {'rc': pc.returncode, 'summary': ' '.join(summ.split())[:1200]}
+            if pc.returncode != 0:
+                self.broken('proof-broken', {'theorem_or_correspondence': 'coqchk EAO.Props.%s' % self.prop, 'output': pc.stdout[-3000:]})
+                return False
         self.cov['trusted_base'] = [
             'Coq 8.16.1 kernel (coqc); vm_compute for Examples/finite tables and for evaluating the model on cases; no native_compute',
             'axioms reported by Print Assumptions: ' + ('none (closed under the global context)' if not axioms else '; '.join(axioms)),
